@@ -141,11 +141,44 @@ Definition cleanup (now : Z) (d : db) : db :=
   set_signed d (filter (fun e => negb (sr_exp (snd e) <? now)) (signed d)).
 
 (* ------------------------------------------------------------------ the daemon's view *)
-Inductive mode := Up | Slow | Dead.
-(* Slow: primary reads exceed remoteDBQueryTimeout (the cache answers, fromCache = true) but
-   writes still go through.  Dead: reads time out and every write fails. *)
+(* How a read of the primary fails while it is out: the query hangs past remoteDBQueryTimeout,
+   or it fails fast - when the statement is prepared (no connection: refused, closed pool, DNS),
+   when it is run, or while its row is fetched. *)
+Inductive rfail := RHang | RPrepare | RQuery | RScan.
+(* Up, or Out k w: every read of the primary fails in way k; w = statements that carry no
+   deadline (profile / signed-record writes, the copy's source queries) still go through. *)
+Inductive mode := Up | Out (k : rfail) (w : bool).
+(* the two outages of the first version of this model: Slow = primary reads exceed
+   remoteDBQueryTimeout (the cache answers, fromCache = true) but writes still go through;
+   Dead = a closed pool: every Prepare / Begin fails at once. *)
+Notation Slow := (Out RHang true).
+Notation Dead := (Out RPrepare false).
+Definition rfail_eqb (a b : rfail) : bool :=
+  match a, b with RHang, RHang | RPrepare, RPrepare | RQuery, RQuery | RScan, RScan => true | _, _ => false end.
 Definition mode_eqb (a b : mode) : bool :=
-  match a, b with Up, Up | Slow, Slow | Dead, Dead => true | _, _ => false end.
+  match a, b with
+  | Up, Up => true
+  | Out k w, Out k' w' => rfail_eqb k k' && Bool.eqb w w'
+  | _, _ => false
+  end.
+
+(* The goroutine that reads the primary (LoadUserProfile, GetUsers, GetSigned) either puts its
+   result on the channel or, after a failure, logs and returns WITHOUT answering: the caller's
+   select then runs into remoteDBQueryTimeout and the cache answers.  [reports k] = a failure
+   of kind k is put on the channel (the caller returns it: no fallback).  A hang cannot be
+   reported. *)
+Inductive rsource := FromPrimary | FromCache | ReadFails.
+Definition read_source (reports : rfail -> bool) (m : mode) : rsource :=
+  match m with
+  | Up => FromPrimary
+  | Out RHang _ => FromCache
+  | Out k _ => if reports k then ReadFails else FromCache
+  end.
+(* the repaired code reports no failure (every one falls back to the cache); before the repair
+   a failed query / row fetch was reported *)
+Definition reports_none (k : rfail) : bool := false.
+Definition reports_old (k : rfail) : bool :=
+  match k with RQuery | RScan => true | _ => false end.
 
 Record state := mk_state { primary : db; cache : db; now : Z; pmode : mode }.
 Definition init : state := mk_state empty_db empty_db 0 Up.
@@ -164,13 +197,14 @@ Inductive op :=
 | Save (u : ukey) (b : N) | DelUser (u : ukey)
 | Upsert (u t d : N) (exp : Z) | DelSigned (u t : N)
 | Tick (dt : Z) | Sync (f : option nat) | Cleanup | SetMode (m : mode)
-| Load (u : ukey) | GetS (u t : N)
+| Load (u : ukey) | GetS (u t : N) | Users
 | Handler (h : hkind) (u : ukey) (b : N).
 
 Inductive out :=
 | OOk | OErr
 | OLoad (found fromCache : bool) (b : N)
 | OSigned (found : bool) (d : N)
+| OUsers (fromCache : bool) (us : list ukey)
 | OSync (completed : bool)
 | ORefused | OServed.
 
@@ -191,26 +225,39 @@ Definition get_signed (s : state) (u t : N) : option srow :=
   | None => None
   end.
 
-Definition writable (s : state) : bool := negb (mode_eqb (pmode s) Dead).
+(* GetUsers: (names, fromCache) *)
+Definition users (s : state) : bool * list ukey :=
+  let from_cache := negb (mode_eqb (pmode s) Up) in
+  (from_cache, map fst (profiles (if from_cache then cache s else primary s))).
+
+Definition writable (s : state) : bool :=
+  match pmode s with Up => true | Out _ w => w end.
 
 Definition save (s : state) (u : ukey) (b : N) : state :=
   with_primary s (set_profiles (primary s) (aset ukey_eqb u b (profiles (primary s)))).
 
-Definition handler (auth_save_guarded : bool) (s : state) (h : hkind) (u : ukey) (b : N) : state * out :=
+Definition handler (auth_save_guarded : bool) (reports : rfail -> bool) (s : state) (h : hkind) (u : ukey) (b : N) : state * out :=
   match h with
   | HDelete => if writable s
                then (with_primary s (set_profiles (primary s) (adel ukey_eqb u (profiles (primary s)))), OServed)
                else (s, OErr)
-  | HRead => (s, OServed)
-  | HMutate => let '(_, from_cache, _) := load s u in
-               if from_cache then (s, ORefused)
-               else if writable s then (save s u b, OServed) else (s, OErr)
-  | HAuthSave => let '(found, from_cache, cur) := load s u in
+  | _ =>
+    match read_source reports (pmode s) with
+    | ReadFails => (s, OErr)                     (* LoadUserProfile returned the primary's error: 500 *)
+    | _ =>
+      match h with
+      | HRead => (s, OServed)
+      | HMutate => let '(_, from_cache, _) := load s u in
+                   if from_cache then (s, ORefused)
+                   else if writable s then (save s u b, OServed) else (s, OErr)
+      | _ => let '(found, from_cache, cur) := load s u in
                  if negb found then (s, ORefused)
                  else if auth_save_guarded && from_cache then (s, OServed)
                  (* the handler stores the profile it loaded (with an updated counter): what
                     reaches the primary derives from `cur`; the save result is not looked at *)
                  else if writable s then (save s u (if from_cache then cur else b), OServed) else (s, OServed)
+      end
+    end
   end.
 
 Definition signed_both (write_through : bool) (s : state) (f : list (skey * srow) -> list (skey * srow)) : state :=
@@ -218,7 +265,7 @@ Definition signed_both (write_through : bool) (s : state) (f : list (skey * srow
            (if write_through then set_signed (cache s) (f (signed (cache s))) else cache s)
            (now s) (pmode s).
 
-Definition step_gen (guarded write_through : bool) (syncf : db -> Z -> option nat -> db -> db * bool)
+Definition step_gen (guarded write_through : bool) (reports : rfail -> bool) (syncf : db -> Z -> option nat -> db -> db * bool)
            (cleanupf : Z -> db -> db) (s : state) (o : op) : state * out :=
   match o with
   | Save u b => if writable s then (save s u b, OOk) else (s, OErr)
@@ -240,19 +287,32 @@ Definition step_gen (guarded write_through : bool) (syncf : db -> Z -> option na
   | Cleanup => let s1 := if writable s then with_primary s (cleanupf (now s) (primary s)) else s in
                (with_cache s1 (cleanupf (now s) (cache s1)), OOk)
   | SetMode m => (mk_state (primary s) (cache s) (now s) m, OOk)
-  | Load u => let '(found, fc, b) := load s u in (s, OLoad found fc b)
-  | GetS u t => match get_signed s u t with
-                | Some r => (s, OSigned true (sr_data r))
-                | None => (s, OSigned false 0%N)
+  | Load u => match read_source reports (pmode s) with
+              | ReadFails => (s, OErr)
+              | _ => let '(found, fc, b) := load s u in (s, OLoad found fc b)
+              end
+  | GetS u t => match read_source reports (pmode s) with
+                | ReadFails => (s, OErr)
+                | _ => match get_signed s u t with
+                       | Some r => (s, OSigned true (sr_data r))
+                       | None => (s, OSigned false 0%N)
+                       end
                 end
-  | Handler h u b => handler guarded s h u b
+  | Users => match read_source reports (pmode s) with
+             | ReadFails => (s, OErr)
+             | _ => let '(fc, us) := users s in (s, OUsers fc us)
+             end
+  | Handler h u b => handler guarded reports s h u b
   end.
 
 (* the repaired code *)
-Definition step : state -> op -> state * out := step_gen true true sync cleanup.
+Definition step : state -> op -> state * out := step_gen true true reports_none sync cleanup.
+(* the same with a failed query / row fetch of the primary reported to the caller (the code
+   before that repair) *)
+Definition step_reporting : state -> op -> state * out := step_gen true true reports_old sync cleanup.
 (* the code before the repairs, on SQLite (qde = false) or an eagerly executing driver *)
 Definition step_old (qde : bool) : state -> op -> state * out :=
-  step_gen false false (old_sync qde) (fun n d => if qde then cleanup n d else d).
+  step_gen false false reports_old (old_sync qde) (fun n d => if qde then cleanup n d else d).
 
 Fixpoint run_gen (st : state -> op -> state * out) (s : state) (ops : list op) : state * list out :=
   match ops with
@@ -279,6 +339,9 @@ Definition out_eqb (a b : out) : bool :=
   | OOk, OOk | OErr, OErr | ORefused, ORefused | OServed, OServed => true
   | OLoad f c x, OLoad f' c' x' => Bool.eqb f f' && Bool.eqb c c' && N.eqb x x'
   | OSigned f x, OSigned f' x' => Bool.eqb f f' && N.eqb x x'
+  | OUsers c us, OUsers c' us' =>      (* the SELECT has no ORDER BY: compared as sets *)
+      Bool.eqb c c' && Nat.eqb (length us) (length us') &&
+      forallb (fun u => existsb (N.eqb u) us') us && forallb (fun u => existsb (N.eqb u) us) us'
   | OSync c, OSync c' => Bool.eqb c c'
   | _, _ => false
   end.
